@@ -112,7 +112,12 @@ def run_case(ctx, rng, graph, gkind, i):
     models = {}
     for sparse in (True, False):
         Xin = X.copy() if rng.random() < 0.5 else [row.copy() for row in X]
-        models[sparse] = GMRFVectorModel(Xin, graph, mode=mode, n_components=trunc, dtype=dtype, sparse=sparse, bias=bias)
+        nkw = {}
+        if isinstance(Xin, list) and rng.random() < 0.4:
+            # the documented n_samples argument: "this many of the samples of this sequence" (which holds a few more)
+            Xin = Xin + [(row + 3.0 * unit).copy() for row in X[: int(rng.integers(1, 4))]]
+            nkw = {"n_samples": n}
+        models[sparse] = GMRFVectorModel(Xin, graph, mode=mode, n_components=trunc, dtype=dtype, sparse=sparse, bias=bias, **nkw)
     try:
         Qs, Qd = gmrfmon.dense(models[True].precision), gmrfmon.dense(models[False].precision)
     except Exception:
